@@ -90,7 +90,14 @@ func judge(t *testing.T, pd *PropDef, scn *Scenario, tape []int32) *Run {
 	if run.Deadlock != "" && len(run.Findings) == 0 {
 		// handled by the oracle if the property cares; always recorded
 	}
-	pd.Oracle(run)
+	func() {
+		defer func() {
+			if p := recover(); p != nil {
+				run.fail("HARNESS", "oracle-panic", "oracle", "%v\n%s", p, stackTrace())
+			}
+		}()
+		pd.Oracle(run)
+	}()
 	return run
 }
 
